@@ -129,6 +129,16 @@ CLAIMS = {
         "with the reason they were not repaired; every failing obligation is reported under its own signature so a recorded class cannot hide another. Signature "
         "verification (ideal) and JSON decoding of entry rows (uninterpreted) are outside; bounds: one extra row, single-entry histories in the quick tier.",
    design='DESIGN.md §3 C07'),
+ 'C04': dict(
+   level='model_checking',
+   text="SQL-text half only: get_where_filters (scalar / system / array / entity fields, with and without defaults, selected or not, JSON-selector filters), "
+        "get_having_filters, get_search_filter, get_paging and get_limit are executed from MIR on hand-built EntityParams whose value leaves (string / binary literals, "
+        "default strings) are symbolic byte sequences (z3 Seq, any 7-bit byte including quotes, backslash, NUL). Two runs with independent value symbols must yield the "
+        "same SQL text (z3: sql_a != sql_b unsat) and every literal value must arrive unchanged in the bound-parameter list. A sat answer is a value that changes the "
+        "statement, replayed on the real function and prepared on an in-memory SQLite.",
+   note="Outside: the round-trip half of the property (needs SQLite's JSON functions), literal un-escaping in the pest parsers, identifiers and aliases (grammar-restricted, "
+        "kept concrete). Strings are restricted to 7-bit bytes so that witnesses are valid Rust Strings.",
+   design='DESIGN.md §3 C04'),
 }
 
 NA = {
